@@ -8,17 +8,6 @@ open Cal
 
 namespace Grp
 
-/-- The datetimes of a period as plain `DT`s (every step of a well-formed period builds one). -/
-def dtsOf (ap : AP) : List DT := ap.moys.filterMap fun (m : Nat) => (fromMoy ap.leap (m : Int)).toOption
-
-/-- Sample periods (a test, not a general theorem): continuous grouping = keyed grouping. -/
-theorem samples_ok :
-    (∀ ap ∈ ([⟨12, 26, 0, 1, 3, 23, 1, false⟩] : List AP),
-      discDay ap ((dtsOf ap).zip (List.range ap.len)) = .ok (contDay ap (List.range ap.len))) ∧
-    (∀ ap ∈ ([⟨1, 30, 0, 2, 2, 23, 1, false⟩, ⟨12, 30, 0, 1, 2, 23, 1, false⟩] : List AP),
-      discMonth ((dtsOf ap).zip (List.range ap.len)) = contMonth ap (List.range ap.len)) := by
-  decide +kernel
-
 def monthChk (leap : Bool) (n : Nat) : Bool :=
   match fromDoy leap n, monthOfDoy leap n with
   | .ok d, .ok m => d.month == m
@@ -27,8 +16,5 @@ def monthChk (leap : Bool) (n : Nat) : Bool :=
 /-- All 365 + 366 day numbers: `DailyCollection.group_by_month` uses the month of `Date.from_doy`. -/
 theorem monthChk_all (leap : Bool) : (List.range' 1 (daysInYear leap)).all (monthChk leap) = true := by
   cases leap <;> decide +kernel
-
-theorem mph_example : (mphKeys 1).Nodup ∧ (3, 23, 0) ∈ mphKeys 1 ∧ (3, 23, 30) ∉ mphKeys 1 := by
-  decide +kernel
 
 end Grp
